@@ -124,8 +124,8 @@ def _plan_conversion(start: Unit, end: Unit) -> Plan:
     plan += _cancel_factors(end_factors)
     plan += _cancel_factors(start_factors, invert=True)
 
-    assert not start_factors
-    assert not end_factors
+    if start_factors or end_factors:
+        raise ConversionNotFound(f"No conversion from {start} to {end}")
 
     return _inline_paths(plan + prefix_plan)
 
@@ -354,10 +354,11 @@ def _find_path_recursive(
 
 def _reduce_dimension(start: Unit, end: Unit) -> Tuple[int, Unit, Unit]:
     """Reduce the dimension of the given units to their lowest common exponents"""
-    assert start.dimension is end.dimension, (
-        f"{start} ({start.dimension}) and {end} ({end.dimension}) measure "
-        "different dimensions"
-    )
+    if start.dimension is not end.dimension:
+        raise ConversionNotFound(
+            f"{start} ({start.dimension}) and {end} ({end.dimension}) measure "
+            "different dimensions"
+        )
 
     if start.dimension is Number:
         return 1, start, end
